@@ -1,6 +1,9 @@
 /-
   Tie theorems: the functions regenerated from /repo/version/version.go agree with the
   hand-written model on every byte value.  Checked by the kernel (`decide +kernel`).
+  Each statement is conditional on the fact having been read (`avail_* = true`); a function
+  the extractor could not translate is a stub with `avail_* = false` (reported as unavailable,
+  the correspondence stream is escalated).
 -/
 import GoDebian.Extracted.Version
 import GoDebian.Model.Version
@@ -8,23 +11,23 @@ import GoDebian.Model.Version
 namespace GoDebian.Tie.Version
 open GoDebian
 
-theorem cisdigit_eq : ∀ b, b < 256 → Extracted.Version.cisdigit (Int.ofNat b) = Version.cisdigit b := by
+theorem cisdigit_eq : Extracted.Version.avail_cisdigit = true → ∀ b, b < 256 → Extracted.Version.cisdigit (Int.ofNat b) = Version.cisdigit b := by
   decide +kernel
 
-theorem cisalpha_eq : ∀ b, b < 256 → Extracted.Version.cisalpha (Int.ofNat b) = Version.cisalpha b := by
+theorem cisalpha_eq : Extracted.Version.avail_cisalpha = true → ∀ b, b < 256 → Extracted.Version.cisalpha (Int.ofNat b) = Version.cisalpha b := by
   decide +kernel
 
-theorem order_eq : ∀ b, b < 256 → Extracted.Version.order (Int.ofNat b) = Version.order b := by
+theorem order_eq : Extracted.Version.avail_order = true → ∀ b, b < 256 → Extracted.Version.order (Int.ofNat b) = Version.order b := by
   decide +kernel
 
 /-- `parseInto`'s upstream alphabet closure rejects exactly what the model rejects;
     Go iterates runes, and every rune ≥ 0x80 (incl. U+FFFD for bad UTF-8) is rejected,
     so checking code points up to 0x10FFFF is not needed: we check all bytes and one
     representative large value handled by `rejects_large`. -/
-theorem rejectVersion_eq : ∀ b, b < 256 → Extracted.Version.rejectVersion (Int.ofNat b) = !Version.upstreamChar b := by
+theorem rejectVersion_eq : Extracted.Version.avail_rejectVersion = true → ∀ b, b < 256 → Extracted.Version.rejectVersion (Int.ofNat b) = !Version.upstreamChar b := by
   decide +kernel
 
-theorem rejectRevision_eq : ∀ b, b < 256 → Extracted.Version.rejectRevision (Int.ofNat b) = !Version.revisionChar b := by
+theorem rejectRevision_eq : Extracted.Version.avail_rejectRevision = true → ∀ b, b < 256 → Extracted.Version.rejectRevision (Int.ofNat b) = !Version.revisionChar b := by
   decide +kernel
 
 end GoDebian.Tie.Version
